@@ -38,8 +38,54 @@ fn to_fam(v: Vec<Vec<u32>>) -> (Fam, bool) {
     (f, sorted_ok && distinct)
 }
 
+/// gcseq <nvars> <steps> <seeds>: pseudo-random arena operation sequences with a collection every few steps, every live
+/// handle compared with explicit sets of sets after every step (a stale cache or a wrong remap shows up as a mismatch or a panic).
+fn gcseq(nv: u32, steps: usize, seeds: u64) {
+    for seed in 1..=seeds {
+        let r = std::panic::catch_unwind(|| {
+            let mut x: u64 = seed.wrapping_mul(0x9E3779B97F4A7C15) | 1;
+            let mut rnd = move |m: u64| { x ^= x << 13; x ^= x >> 7; x ^= x << 17; x % m };
+            let mut ar = ZddArena::new();
+            let mut live: Vec<(varpulis_zdd::arena::ZddHandle, Fam)> = vec![];
+            for _ in 0..3 { let mut s = BTreeSet::new(); for v in 0..nv { if rnd(2) == 1 { s.insert(v); } }
+                let h = ar.from_set(&s.iter().cloned().collect::<Vec<_>>()); let mut f = Fam::new(); f.insert(s); live.push((h, f)); }
+            for step in 0..steps {
+                let i = rnd(live.len() as u64) as usize; let j = rnd(live.len() as u64) as usize;
+                let (ha, fa) = live[i].clone(); let (hb, fb) = live[j].clone();
+                let op = rnd(5);
+                let (h, f) = match op {
+                    0 => (ar.union(ha, hb), spec("union", &fa, &fb, 0)),
+                    1 => (ar.intersection(ha, hb), spec("intersection", &fa, &fb, 0)),
+                    2 | 3 => (ar.difference(ha, hb), spec("difference", &fa, &fb, 0)),
+                    _ => { let v = rnd(nv as u64) as u32; (ar.product_with_optional(ha, v), spec("product_with_optional", &fa, &fb, v)) }
+                };
+                if live.len() < 6 { live.push((h, f)); } else { let k = rnd(live.len() as u64) as usize; live[k] = (h, f); }
+                if step % 3 == 2 {
+                    let keep: Vec<usize> = (0..live.len()).filter(|_| rnd(4) != 0).collect();
+                    let hs: Vec<_> = keep.iter().map(|k| live[*k].0).collect();
+                    let (_, nh) = ar.gc(&hs);
+                    live = keep.iter().zip(nh).map(|(k, h)| (h, live[*k].1.clone())).collect();
+                    if live.is_empty() { let h = ar.base(); let mut f = Fam::new(); f.insert(BTreeSet::new()); live.push((h, f)); }
+                }
+                for (h, f) in &live {
+                    let (g, ok) = to_fam(ar.iter(*h).collect());
+                    if &g != f || !ok || ar.count(*h) != f.len() { return Some(format!("seed {seed} step {step}: a live handle denotes {:?} (count {}), explicit sets give {:?}", g, ar.count(*h), f)); }
+                }
+            }
+            None
+        });
+        match r {
+            Err(_) => { println!("REPRODUCED arena operation sequence with garbage collections panicked (seed {seed})"); std::process::exit(1); }
+            Ok(Some(m)) => { println!("REPRODUCED {m}"); std::process::exit(1); }
+            Ok(None) => {}
+        }
+    }
+    println!("OK {seeds} operation sequences of {steps} steps over {nv} variables with interleaved gc agree with explicit sets");
+}
+
 fn main() {
     let a: Vec<String> = std::env::args().collect();
+    if a[1] == "gcseq" { gcseq(a[2].parse().unwrap(), a[3].parse().unwrap(), a[4].parse().unwrap()); return; }
     let (api, op) = (a[1].as_str(), a[2].as_str());
     let fa = parse(&a[3]); let fb = parse(&a[4]);
     let var: u32 = a.get(5).map(|x| x.parse().unwrap()).unwrap_or(0);
